@@ -82,7 +82,18 @@ def collection_map_parity(ctx, key: str, elem_name: str, elem_parity: int) -> in
     p = positional_params(fi.node)[0]
     rets = returned_exprs(fi.node)
     if len(rets) != 1:
-        raise Und(f"{fi.qualname}: expected a single return")
+        # several exits (e.g. a vectorised fast path next to the element-wise one): every one of them must give the
+        # bits the same orientation, otherwise the result depends on which path the input's type happens to select
+        pars = []
+        for r in rets:
+            pars.append((r, _one_return_parity(fi, p, r, elem_name, elem_parity)))
+        known = [(r, q) for r, q in pars if q is not None]
+        if len(known) != len(pars):
+            bad = next(r for r, q in pars if q is None)
+            raise Und(f"{fi.qualname}: cannot follow the bit order from `{p}` to the exit {short(bad)}")
+        if len({q for _, q in known}) > 1:
+            raise PathsDisagree(fi, [(short(r), q) for r, q in known])
+        return known[0][1]
     d = Defs(fi.node)
     e = rets[0]
     if isinstance(e, ast.Name) and len(d.defs.get(e.id, [])) == 1:
@@ -108,6 +119,99 @@ def collection_map_parity(ctx, key: str, elem_name: str, elem_parity: int) -> in
     if isinstance(e, ast.Call) and dotted(e.func) == "map" and len(e.args) == 2 and dotted(e.args[0]) == elem_name and norm(e.args[1]) == p:
         return elem_parity
     raise Und(f"{fi.qualname}: {short(rets[0])} is not an order-preserving element-wise map of {elem_name} over `{p}`")
+
+
+class PathsDisagree(Exception):
+    def __init__(self, fi, paths):
+        super().__init__(f"{fi.qualname}: exits disagree on the bit order: {paths}")
+        self.fi, self.paths = fi, paths
+
+
+ORDER_PRESERVING_ARRAY_OPS = {"view", "reshape", "astype", "tolist", "ascontiguousarray", "asarray", "array", "ravel", "flatten", "copy", "list", "tuple", "int", "split", "char", "frombuffer", "encode"}
+
+
+def _one_return_parity(fi, p: str, ret: ast.AST, elem_name: str, elem_parity: int) -> Optional[int]:
+    """bit-order parity of one returned expression of an element-wise conversion of `p`: through the element function
+    (its parity), through explicit reversals, or through order-preserving array plumbing (parity 0)"""
+    d = Defs(fi.node)
+    selfref: set = set()
+
+    def go(e: ast.AST, depth: int = 0) -> Optional[int]:
+        if depth > 25:
+            return None
+        if isinstance(e, ast.Name):
+            if e.id == p:
+                return 0
+            if e.id in selfref:
+                return 0
+            ds = [x for x in d.defs.get(e.id, []) if isinstance(x, ast.AST)]
+            if len(ds) == 1:
+                return go(ds[0], depth + 1)
+            # straight-line refinement `x = f(p); x = g(x)`: parity of the base definition plus that of every update
+            base = [x for x in ds if not any(isinstance(n, ast.Name) and n.id == e.id for n in ast.walk(x))]
+            upd = [x for x in ds if x not in base]
+            if len(base) == 1 and upd:
+                q = go(base[0], depth + 1)
+                selfref.add(e.id)
+                try:
+                    for u in upd:
+                        qu = go(u, depth + 1)
+                        if q is None or qu is None:
+                            return None
+                        q ^= qu
+                finally:
+                    selfref.discard(e.id)
+                return q
+            ps = {go(x, depth + 1) for x in ds}
+            return ps.pop() if len(ps) == 1 else None
+        if is_reverse_slice(e):
+            q = go(e.value, depth + 1)
+            return None if q is None else q ^ 1
+        if isinstance(e, ast.Subscript):
+            return go(e.value, depth + 1)
+        if isinstance(e, (ast.ListComp, ast.GeneratorExp)) and len(e.generators) == 1:
+            g = e.generators[0]
+            src = go(g.iter, depth + 1)
+            if src is None:
+                return None
+            # the element expression must itself be an order-preserving / counted function of the loop variable
+            t = norm(g.target)
+            el = e.elt
+            f = 0
+            while True:
+                if is_reverse_slice(el):
+                    f ^= 1
+                    el = el.value
+                elif isinstance(el, ast.Call) and dotted(el.func) == elem_name and len(el.args) == 1:
+                    f ^= elem_parity
+                    el = el.args[0]
+                elif isinstance(el, ast.Call) and (dotted(el.func) or "").split(".")[-1] == "reversed" and len(el.args) == 1:
+                    f ^= 1
+                    el = el.args[0]
+                elif isinstance(el, ast.Call) and (dotted(el.func) or "").split(".")[-1] in ORDER_PRESERVING_ARRAY_OPS and len(el.args) == 1:
+                    el = el.args[0]
+                elif isinstance(el, (ast.ListComp, ast.GeneratorExp)) and len(el.generators) == 1 and norm(el.generators[0].iter) == t:
+                    el = ast.Name(id=t, ctx=ast.Load())
+                else:
+                    break
+            if norm(el) != t:
+                return None
+            return src ^ f
+        if isinstance(e, ast.Call):
+            name = e.func.attr if isinstance(e.func, ast.Attribute) else (e.func.id if isinstance(e.func, ast.Name) else "")
+            if name == "map" and len(e.args) == 2 and dotted(e.args[0]) == elem_name:
+                q = go(e.args[1], depth + 1)
+                return None if q is None else q ^ elem_parity
+            if name in ("reversed", "flip", "fliplr") and e.args:
+                q = go(e.args[0], depth + 1)
+                return None if q is None else q ^ 1
+            if name in ORDER_PRESERVING_ARRAY_OPS:
+                base = e.func.value if isinstance(e.func, ast.Attribute) and not (dotted(e.func) or "").startswith(("np.", "numpy.")) else (e.args[0] if e.args else None)
+                return go(base, depth + 1) if base is not None else None
+            return None
+        return None
+
+    return go(ret)
 
 
 # ----------------------------------------------------------------------------- D1
@@ -244,15 +348,36 @@ class Level2:
                     raise Und("rng.choice without a candidate list")
                 return self.ev(a, depth + 1)
             if base in ("len",) and len(e.args) == 1:
-                # rng.choice(len(xs)) draws positions of xs in listing order
-                return self.ev(e.args[0], depth + 1)
+                # rng.choice(len(xs)) draws positions 0..N-1; with p = the listing's probabilities these are positions of
+                # the listing (that both regimes use the same probability vector is a separate obligation)
+                try:
+                    return self.ev(e.args[0], depth + 1)
+                except Und:
+                    return (0, 0)
             if base in ("range", "arange") and len(e.args) == 1:
                 return self.ev(e.args[0], depth + 1)
             if base == "sorted":
                 raise Und("candidates are re-sorted")
             raise Und(f"unrecognised call {short(e, 60)} on the way from the outcome keys to the samples")
-        if isinstance(e, ast.ListComp) and len(e.generators) == 1 and not e.generators[0].ifs:
+        if isinstance(e, (ast.ListComp, ast.GeneratorExp)) and len(e.generators) == 1 and not e.generators[0].ifs:
             t = norm(e.generators[0].target)
+            # text freshly formatted from a drawn amplitude index: MSB-first, i.e. *without* the reversal(s) the key
+            # listing of get_outcome_probs carries
+            el0 = e.elt
+            fl0 = 0
+            while is_reverse_slice(el0):
+                fl0 ^= 1
+                el0 = el0.value
+            fresh = False
+            if isinstance(el0, ast.Call) and dotted(el0.func) == "format" and len(el0.args) == 2 and norm(el0.args[0]) == t and "b" in norm(el0.args[1]):
+                fresh = True
+            if isinstance(el0, ast.Call) and (dotted(el0.func) or "").split(".")[-1] == "binary_repr" and el0.args and norm(el0.args[0]) == t:
+                fresh = True
+            if isinstance(el0, ast.JoinedStr) and any(isinstance(v, ast.FormattedValue) and norm(v.value) == t and v.format_spec is not None and "b" in norm(v.format_spec) for v in el0.values):
+                fresh = True
+            if fresh:
+                self.ev(e.generators[0].iter, depth + 1)  # the indices must be drawn over the listing (raises otherwise)
+                return (0, getattr(self, "pi_key", 0) ^ fl0)
             indexed = any(isinstance(x, ast.Subscript) and not isinstance(x.slice, ast.Slice) and norm(x.slice) == t for x in ast.walk(e.elt))
             c, b = (0, 0) if indexed else self.ev(e.generators[0].iter, depth + 1)
             el = e.elt
@@ -315,6 +440,7 @@ def check_sampling(ctx, pi_key: int, pi_b2t: int):
             ctx.undecided(R1, fi.key + f":{label}", "expected a single return", fi)
             return
         lv = Level2(fi.node, keys_name, conv, region)
+        lv.pi_key = pi_key
         try:
             c, b = lv.ev(rets[0])
         except Und as e:
@@ -679,11 +805,15 @@ def run(ctx):
         check_sampling(ctx, pi_key, pi_conv)
     except Und as e:
         ctx.undecided(R1, "path:amplitude-index->tuple", str(e))
+    except PathsDisagree as e:
+        ctx.violation(R1, f"{e.fi.key}:exits-agree", f"the exits of {e.fi.qualname} orient the bits differently ({'; '.join(f'{t}: {q} reversal(s)' for t, q in e.paths)}): which numbering a converted outcome uses then depends on the path taken (e.g. the type of the input), so one sampling regime reads qubit q at position n-1-q", e.fi)
     try:
         pi_t2b = elementwise_parity(ctx, f"{UT}:tuple_to_bitstring")
         check_counts(ctx, pi_t2b)
     except Und as e:
         ctx.undecided(R2, "path:tuple->count-string", str(e))
+    except PathsDisagree as e:
+        ctx.violation(R2, f"{e.fi.key}:exits-agree", f"the exits of {e.fi.qualname} orient the bits differently ({'; '.join(f'{t}: {q} reversal(s)' for t, q in e.paths)})", e.fi)
     check_exact_distribution(ctx)
     check_operator_matrix(ctx)
     check_embedding_helpers(ctx)
